@@ -14,7 +14,8 @@ import ShVerif.Gen.C06
      of printer-local state.
   Whole-parser panic freedom and linear time are explored by the harness's fuzz leg, not proved;
   the index safety of the byte-source layer (`p.bs[p.bsp…]`, newLit/endLit) is the L2 obligation
-  `bytesrc_no_panic`, stated at the end and owned by C07's package.
+  `bytesrc_no_panic`, stated at the end and proved in Props/C06L2.lean from C07's refinement
+  theorem; `walk_total` / `encode_total` are in Props/C06L6.lean.
 -/
 namespace ShVerif.C06
 open ShVerif.Gen.C06
@@ -167,14 +168,14 @@ theorem recovered_caseitem_ill_formed :
     wfNode "CaseItem" [("Comments", 0), ("Patterns", 0), ("Stmts", 0), ("Last", 0)] = false := by
   decide
 
-/-! ### stated only -/
+/-! ### the byte-source obligation (proved in Props/C06L2.lean) -/
 
-/-- Owned by the byte-source layer L2 (lean/ShVerif/Model/L2ByteSrc.lean, property C07; its
-    proofs were still in progress when this package was written, so it is not imported):
-    for the relation `faults input sched prog` = "running the client program `prog` — any
-    sequence of rune/peek/peekTwo/newLit/endLit/nextPos/errPass calls that respects the
-    newLit…endLit protocol — over `input` delivered in chunks `sched` makes a primitive index its
-    buffer out of range (`p.bs[p.bsp-w:]`, `len(litBs)-p.w`, `isLitRedir`)", no run faults. -/
+/-- The obligation of the byte-source layer L2, stated here without importing anything, for an
+    abstract relation `faults input sched prog` = "running the client program `prog` over `input`
+    delivered in chunks `sched` makes a primitive index its buffer out of range (`p.bs[p.bsp-w:]`,
+    `len(litBs)-p.w`, `isLitRedir`) or hang".  Props/C06L2.lean instantiates it with C07's model
+    (`l2Faults`: client inside `InProtocol`, stop word ≤ 4 bytes, a primitive returns a `Fault`) and
+    proves it: theorem `ShVerif.C06.bytesrc_no_panic`. -/
 def bytesrc_no_panic_statement {Prog : Type} (faults : List UInt8 → List Nat → Prog → Prop) : Prop :=
   ∀ (input : List UInt8) (sched : List Nat) (prog : Prog), ¬ faults input sched prog
 
